@@ -181,6 +181,8 @@ class Notifier(Peer):
                 self.reg = (src, token, mid, mtype == rc.CON)
 
     def first_response(self, observe, payload=b"v0", code=69, extra=()):
+        if self.reg is None:
+            return None
         src, token, mid, con = self.reg
         opts = list(extra)
         if observe is not None:
@@ -189,6 +191,8 @@ class Notifier(Peer):
         return self.send(src, m)
 
     def notify(self, observe, payload, con=False, code=69, extra=(), token=None):
+        if self.reg is None:
+            return None
         src, tok, _, _ = self.reg
         opts = list(extra)
         if observe is not None:
